@@ -167,6 +167,8 @@ def s_bytearray(I, args, kw):
     if not args:
         return SBuf([], 'bytearray')
     x = args[0]
+    if isinstance(x, SRegion):
+        return SRegion(x.n, kind='bytearray', tag=('copy', x))
     if isinstance(x, SInt):
         # symbolic size: content not modelled
         if bool(x < 0):
@@ -188,6 +190,8 @@ def s_bytes(I, args, kw):
     if not args:
         return b''
     x = args[0]
+    if isinstance(x, SRegion):
+        return SRegion(x.n, kind='bytes', tag=('copy', x))
     if isinstance(x, bytes):
         return x
     if isinstance(x, (bytearray, memoryview)):
